@@ -327,11 +327,13 @@ pub fn run(tier: &str, seed: u64) -> i32 {
     }
     // D-real: the shapes of real metadata in one source program (130 variants with index gaps, deep module
     // path, skipped middle parameter, 10-tuple, long arrays), under every setting of the neighbourhood
-    for (sname, spec) in &settings {
-        chain.push(Case::new(RegSrc::Prog(real_shapes_program()), spec.clone(), format!("D-real, settings {sname}")));
+    for (pname, prog) in special_programs() {
+        for (sname, spec) in &settings {
+            chain.push(Case::new(RegSrc::Prog(prog.clone()), spec.clone(), format!("{pname}, settings {sname}")));
+        }
     }
     let st = sweep(
-        "D-chain(polkadot full + 918 single-id closures) + D-real(real-metadata shapes x settings)",
+        "D-chain(polkadot full + 918 single-id closures) + D-real / D-deep / degenerate registries x settings",
         &chain,
         Duration::from_secs(if thorough { 900 } else { 150 }),
         |c| json!({"case": c.note, "reg": c.reg.describe()}),
